@@ -70,6 +70,8 @@ def _plan(draw):
             if draw(st.integers(0, 2)) == 0 or (fmt == "lod_csv" and draw(st.booleans())):
                 if fmt in ("lod_json", "lod_csv"):
                     m[nm] = "str" if kind not in ("i", "f") or draw(st.integers(0, 2)) == 0 else "float"
+                    if fmt == "lod_json" and kind in ("b", "i") and draw(st.booleans()):
+                        m[nm] = "int"                 # int(True) is 1: a cast is applied even where isinstance already holds
                 else:
                     choices = {"i": ["float", "str", "object"], "f": ["object", "float"], "b": ["object"],
                                "s": ["object", "str"], "d": ["datetime64[us]", "datetime64[s]", "datetime64[D]", "object"],
@@ -253,7 +255,7 @@ def _kwargs(plan, restrict=True):
         out["keys" if lod else "columns"] = list(kw["columns"])
     if restrict and "dtypes" in kw:
         if lod:
-            out["types"] = {k: {"float": float, "str": str}[v] for k, v in kw["dtypes"].items()}
+            out["types"] = {k: {"float": float, "str": str, "int": int}[v] for k, v in kw["dtypes"].items()}
         else:
             out["dtypes"] = {k: _DT[v] for k, v in kw["dtypes"].items()}
     for k in ("sep", "header", "encoding", "allow_pickle"):      # ("nested" only shapes the file)
@@ -346,7 +348,7 @@ def check(plan, ctx):
     want_names = kw.get("columns")
     casts = kw.get("dtypes", {})
     if fmt.startswith("lod_"):
-        types = {"float": float, "str": str}
+        types = {"float": float, "str": str, "int": int}
         want = []
         for it in full:
             d = {k: v for k, v in it.items() if want_names is None or k in want_names}
@@ -390,7 +392,7 @@ def _reference_only(plan, method, path):
     want_names = kw.get("columns")
     casts = kw.get("dtypes", {})
     if fmt.startswith("lod_"):
-        types = {"float": float, "str": str}
+        types = {"float": float, "str": str, "int": int}
         out = []
         for it in full:
             d = {k: v for k, v in it.items() if want_names is None or k in want_names}
